@@ -62,7 +62,7 @@ func runC17(c *Ctx, r *Report, tier string) {
 	nIn := 0
 	loopsWH := c.loopsDeep(wh)
 	for _, cs := range calls {
-		if cs.Fn == wh {
+		if c.actsFor(cs.Fn, wh) {
 			nIn++
 			r.Check(innermost(loopsWH, cs.Call.Block()) == nil, "COLUMN", c.fname(wh), "getAlignmentInfo outside any loop", c.ipos(cs.Call), "computed once, before the rows are written", "alignment recomputed inside a loop")
 		} else if scope[cs.Fn] {
@@ -211,7 +211,7 @@ func runC17(c *Ctx, r *Report, tier string) {
 		for _, fld := range []string{"hasShort", "hasValueName"} {
 			f := c.Field("alignmentInfo", fld)
 			for _, s := range c.storesTo(f) {
-				if s.Fn != meas {
+				if !c.actsFor(s.Fn, meas) {
 					continue
 				}
 				pres := "nonzero(Option.ShortName("
